@@ -42,6 +42,7 @@ props! {
 pub fn helper(cmd: &str, args: &[String]) -> Option<i32> {
     match cmd {
         "c18-child" => Some(c18::child(args.first().map(|s| s.as_str()).unwrap_or("[]"))),
+        "c05-child" => Some(c05::child(args.first().map(|s| s.as_str()).unwrap_or("{}"))),
         // write the seed corpus of a fuzz target into a directory
         "fuzz-seeds" => {
             let dir = std::path::Path::new(&args[1]);
